@@ -113,7 +113,7 @@ def _check_graph(g, cells, pairs, paths, np_seed, sig="C13"):
 
 def _check_forks(g, sol, sig="C13"):
     a = M.adj(g)
-    sm = L.solved(g, sol)
+    sm = L.solved(g, sol, dtype=L.provenance([g, sol], g))
     idx_f, co_f = call(f"{sig}:forking_points", sm.get_solution_forking_points)
     idx_p, co_p = call(f"{sig}:path_following_points", sm.get_solution_path_following_points)
     idx_f = [int(i) for i in idx_f]
